@@ -764,7 +764,7 @@ class TableEngine:
             op["obs"]["target_row"] = ty
         if self.prop == "C10" and self.twin is not None and rng.chance(0.5, "on"):
             op["on"] = "twin"
-        if self.prop == "C10" and self.twin is not None and name in ("set_column", "insert_column", "append_column", "set_row", "insert_row", "append_row", "set_cell", "insert_cell", "append_cell") and op.get("clone", True) and rng.chance(0.3, "arg_to_other"):
+        if self.prop == "C10" and self.twin is not None and name in ("set_column", "insert_column", "append_column", "set_row", "insert_row", "append_row", "set_cell", "insert_cell", "append_cell", "set_row_cells", "set_cells") and op.get("clone", True) and rng.chance(0.3, "arg_to_other"):
             op["arg_to_other"] = True
         if name in ("live_row_rep", "live_cell_rep"):
             op["obs"]["level"] = "full"  # attribute a divergence to this very step
